@@ -398,6 +398,11 @@ def h_lists_paths_userdata(sx):
         else:
             lines = ["paths = features/a\n  features/b", "format = plain\n  progress", "outfiles = -\n  o1.txt" if stdout_first else "outfiles = o1.txt", "name = n1\n  n2\n  n3",
                      "tags = @x\n  @y", "[behave.userdata]", "foo = file", "keep = k", "MixedCase = V", "UPPER_NAME = u"]
+        with_default_tags = bool(sx.bool("file_default_tags"))
+        if with_default_tags:
+            # default_tags is the fallback for "no tags given anywhere": the file's own tags (and the command line) win over it
+            k_ = [i for i, l in enumerate(lines) if l.startswith("tags")][0]
+            lines.insert(k_ if sx.bool("default_tags_first") else k_ + 1, 'default_tags = ["@dflt"]' if toml else "default_tags = @dflt")
         no_format = (not stdout_first) and bool(sx.bool("outfiles_without_format"))
         if no_format:
             # the configuration file names an output file but no formatter (that comes from -f or the default)
@@ -438,6 +443,8 @@ def h_lists_paths_userdata(sx):
             sx.check(cfg.tags == ["@cmd"], "C20.cmdline-tags-win", detail=dict(det, got=cfg.tags))
         else:
             sx.check(list(cfg.config_tags or []) == ["@x", "@y"], "C20.file-list-order-kept", detail=dict(det, got=cfg.config_tags))
+            sx.check(list(cfg.tags or []) == ["@x", "@y"], "C20.file-tags-win-over-default-tags",
+                     detail=dict(det, got=cfg.tags, default_tags_in_file=with_default_tags))
         sx.check(cfg.userdata.get("keep") == "k", "C20.file-userdata-kept", detail=dict(det, got=dict(cfg.userdata)))
         # names are case-sensitive and kept as written in the file
         sx.check(cfg.userdata.get("MixedCase") == "V" and "mixedcase" not in cfg.userdata, "C20.file-userdata-kept", detail=dict(det, got=dict(cfg.userdata)))
